@@ -86,6 +86,26 @@ def check(ix, rep):
     from sa.rules import nodename
     nn = nodename.check(ix, rep, 'online-key')
     rep.floor('name obligations (parts of the printed name, skeletons)', nn, 120)
+    # pastify() of a past formula is the identity only if the bounds it rebuilds are the written ones: each bound converted with its own unit
+    # (else the other bound's, else the default) by the normalisers the pastifier and the horizon use
+    from sa.rules import units as _u2, unitflow as _uf2
+    _pc = ix.find_class('rtamt.pastifier.stl.pastifier', 'StlPastifier')
+    _hc = ix.find_class('rtamt.pastifier.stl.horizon', 'StlHorizon')
+    _norms = {}
+    for _c in (_pc, _hc):
+        if _c is None:
+            raise AnalysisError('pastifier / horizon class vanished')
+        for _f in _c.methods.values():
+            for _nf in _uf2.normalisers_used(ix, _c, _f):
+                _norms[id(_nf)] = _nf
+    for _nf in _norms.values():
+        _u2.check_transformer(ix, rep, None, None, 'dense', func=_nf)
+    rep.floor('bound normalisers of the pastifier', len(_norms), 1)
+    # two monitors share no operator: no operation object or operator table in a class body or at module level
+    from sa.rules import globals as _G2
+    _G2.fixture_selfcheck(rep)
+    _ngl = _G2.run_global(ix, rep, prefix='rtamt.semantics')
+    rep.floor('semantics modules scanned for shared state', _ngl, 60)
     explanation = (
         'R-STEP: operators are keyed by printed node name and sub-spec nodes are shared, so the update visitor must memoise per '
         'update under that very key and renew the memo once per update(); the rule checks key agreement (construction visitor, '
